@@ -1,5 +1,6 @@
 import SurfModel.Sgr
 import SurfModel.Grammar
+import SurfModel.Event
 /-!
 # Payload decoders of `src/decoder.rs` (shared by C02 and C04)
 
@@ -32,12 +33,6 @@ inductive Stop where
 
 /-! ## events -/
 
-/-- `DecMode` (src/terminal.rs), in the order of the array in `DecMode::from_usize` -/
-inductive DecMode where
-  | visibleCursor | autoWrap | sixelScrolling | mouseReport | mouseMotions | mouseSGR | altScreen
-  | synchronizedOutput | bracketedPaste
-  deriving Repr, DecidableEq
-
 /-- `mode as usize` -/
 def DecMode.code : DecMode → Nat
   | .visibleCursor => 25 | .autoWrap => 7 | .sixelScrolling => 80 | .mouseReport => 1000
@@ -51,10 +46,6 @@ def DecMode.all : List DecMode :=
 /-- `DecMode::from_usize`: first entry of the array with that discriminant -/
 def DecMode.fromUsize (code : Nat) : Option DecMode := DecMode.all.find? fun m => m.code == code
 
-inductive DecModeStatus where
-  | notRecognized | enabled | disabled | permanentlyEnabled | permanentlyDisabled
-  deriving Repr, DecidableEq
-
 def DecModeStatus.code : DecModeStatus → Nat
   | .notRecognized => 0 | .enabled => 1 | .disabled => 2 | .permanentlyEnabled => 3 | .permanentlyDisabled => 4
 
@@ -64,40 +55,6 @@ def DecModeStatus.all : List DecModeStatus :=
 /-- `DecModeStatus::from_usize` -/
 def DecModeStatus.fromUsize (code : Nat) : Option DecModeStatus :=
   DecModeStatus.all.find? fun s => s.code == code
-
-/-- `TerminalColor` -/
-inductive ColorName where
-  | background | foreground | palette (i : Nat)
-  deriving Repr, DecidableEq
-
-/-- `TerminalEvent` as far as a decoder can produce it, plus `char` (`TerminalCommand::Char`, command decoder) -/
-inductive Event where
-  /-- `Key(Key)` -/
-  | key (k : Key)
-  /-- `Mouse(Mouse { name, mode, pos })` -/
-  | mouse (name : KeyName) (mode : Nat) (row col : Nat)
-  /-- `CursorPosition(Position)` -/
-  | cursorPosition (row col : Nat)
-  /-- `Size(TerminalSize { cells, pixels })` -/
-  | size (cellHeight cellWidth pixelHeight pixelWidth : Nat)
-  | decMode (mode : DecMode) (status : DecModeStatus)
-  /-- `KittyImage { id, placement, error }`; the message is a string (its UTF-8 bytes) -/
-  | kittyImage (id : Nat) (placement : Option Nat) (error : Option (List Nat))
-  | keyboardLevel (level : Nat)
-  /-- `Termcap(BTreeMap<String, Option<String>>)`: strictly increasing association list, strings as Latin-1 -/
-  | termcap (entries : List (List Nat × Option (List Nat)))
-  /-- `DeviceAttrs(BTreeSet<usize>)`: strictly increasing list -/
-  | deviceAttrs (attrs : List Nat)
-  | raw (bytes : List Nat)
-  | color (name : ColorName) (c : Rgba)
-  | faceGet (face : DFace)
-  /-- `Command(TerminalCommand::FaceModify(_))` (event decoder), `TerminalCommand::FaceModify(_)` (command decoder) -/
-  | command (m : FMod)
-  /-- `Paste(String)` -/
-  | paste (text : List Nat)
-  /-- `TerminalCommand::Char(c)` (command decoder only) -/
-  | char (c : Nat)
-  deriving Repr, DecidableEq
 
 abbrev Res := Except Stop (Option Event)
 
@@ -351,24 +308,6 @@ def parseColor (s : List Nat) : Except Stop (Option Rgba) :=
              | none => .ok none
              | some b => .ok (some ⟨r, g, b, 255⟩))
       | _ => .ok none
-
-/-! ## containers -/
-
-/-- `String` order on Latin-1 strings = lexicographic order of the byte values -/
-def ltBytes : List Nat → List Nat → Bool
-  | [], [] => false
-  | [], _ :: _ => true
-  | _ :: _, [] => false
-  | a :: as, b :: bs => a < b || (a == b && ltBytes as bs)
-
-/-- `BTreeMap::insert` on a strictly increasing association list -/
-def mapInsert (k : List Nat) (v : Option (List Nat)) :
-    List (List Nat × Option (List Nat)) → List (List Nat × Option (List Nat))
-  | [] => [(k, v)]
-  | (k', v') :: rest =>
-    if ltBytes k k' then (k, v) :: (k', v') :: rest
-    else if k = k' then (k, v) :: rest
-    else (k', v') :: mapInsert k v rest
 
 /-! ## the `Matcher::decode` bodies -/
 
